@@ -46,9 +46,12 @@ Terms(b, pos, end, ar, k) ==
             [ok |-> rest.ok, ts |-> <<r.t>> \o rest.ts, n |-> rest.n]
 
 \* terms until exactly end
+\* (a list of more than MaxTerms terms is rejected: no generated object has one, and a mis-framed region full of
+\* one-byte terms must fail, not exhaust the evaluator's stack)
+MaxTerms == 3000
 TermList(b, pos, end, ar, acc) ==
   IF pos = end THEN [ok |-> TRUE, ts |-> acc]
-  ELSE IF pos > end THEN [ok |-> FALSE, ts |-> acc]
+  ELSE IF pos > end \/ Len(acc) >= MaxTerms THEN [ok |-> FALSE, ts |-> acc]
   ELSE LET r == Term(b, pos, end, ar) IN
        IF ~r.ok \/ r.n <= pos THEN [ok |-> FALSE, ts |-> acc] ELSE TermList(b, r.n, end, ar, Append(acc, r.t))
 
